@@ -30,7 +30,7 @@ def cluster_model(work, res, tier):
                                   "wall_s": round(wall, 1)})
 
 
-def sim_stage(work, res, prop, tier, prefixes, count, replay=None, model=True):
+def sim_stage(work, res, prop, tier, prefixes, count, replay=None, model=True, maxn=None):
     binp = vlib.build_harness(work)
     if model and not replay:
         cluster_model(work, res, tier)
@@ -44,7 +44,7 @@ def sim_stage(work, res, prop, tier, prefixes, count, replay=None, model=True):
             out.write(fh.read())
         count = 1
     else:
-        ps = simplans.make(prop, tier, vlib.SEED, count)
+        ps = simplans.make(prop, tier, vlib.SEED, count, maxn)
         with open(plans, "w") as fh:
             for p in ps:
                 fh.write(json.dumps(p) + "\n")
